@@ -53,8 +53,14 @@ async def main():
     elif case["behaviour"] == "not_executable":
         params = StdioParameters(command=os.path.join(ROOT, "children", "misbehave.py"), args=[])
     else:
+        env = None
+        if case.get("env"):
+            # a caller-supplied server environment (non-default): e.g. LOG_LEVEL=ERROR, which makes the client
+            # silence the server's stderr
+            env = dict(os.environ)
+            env.update(case["env"])
         params = StdioParameters(command=sys.executable,
-                                 args=["-B", os.path.join(ROOT, "children", "misbehave.py"), case["behaviour"]])
+                                 args=["-B", os.path.join(ROOT, "children", "misbehave.py"), case["behaviour"]], env=env)
     gc.collect()
     obs["fds_before"] = fd_table()
     pending = {}
@@ -173,6 +179,10 @@ async def main():
         obs["pending_outcome"] = pending["outcome"]
     await asyncio.sleep(0.3)
     obs["states"] = {str(p): proc_state(p) for p in obs["pids"]}
+    # first without the collector's help: a descriptor that only a garbage collection closes is still a leak
+    early = fd_table()
+    obs["fd_new_before_gc"] = sorted(v for k, v in early.items() if k not in obs["fds_before"])
+    obs["fd_delta_before_gc"] = len(early) - len(obs["fds_before"])
     gc.collect()
     await asyncio.sleep(0)
     gc.collect()
